@@ -18,6 +18,7 @@ RULE = (
     "the rotation (bystanders pre-loaded with answers) until the victim has been written to and awaited twice. The "
     "(type, event) pairs that failed on the pinned tree (orderly EOF on the six fair-queue sockets — D12; REQ, and write "
     "errors in REQ/ROUTER/REP — D13) were repaired; every pair is now required to hold."
+    ' Family pub-backlog-then-end: a subscriber stops reading, output for it is buffered, then its connection ends on the read side (EOF, reset, malformed frame): both halves of the connection are released once the socket has observed it — nothing lingers to flush a backlog to a peer that is gone.'
 )
 ASSUMPTIONS = ["descriptor release is observed through the pipe halves' Drop flags not modelled",
                "PUB notices a dead subscriber through its reader task; its write-side detection (only at the high-water mark) is outside the statement"]
@@ -257,9 +258,48 @@ def replayfault_oracle(case, lines):
     return None
 
 
+def pub_backlog_then_end(t, event, n):
+    """PUB / XPUB: a subscriber stops reading, output for it is buffered, then its connection ENDS on the read side (EOF,
+    reset, protocol error): once the socket has observed that, EVERYTHING it holds for the connection is released — the
+    write half with its backlog included; nothing lingers trying to flush to a peer that is gone"""
+    sc = wg.Script()
+    sc.sock(1, t)
+    sc.attach(1, 1, "SUB", b"victim")
+    sc.attach(1, 2, "SUB", b"by2")
+    for p in (1, 2):
+        sc.reveal_msg(p, [b"\x01"])
+    if t == "PUB":
+        sc.add("drain")
+    else:
+        for _ in range(3):
+            f = sc.fut()
+            sc.add(f"recv {f} 1", f"poll {f}", f"drop {f}")
+    sc.add("wire 1", "wire 2", "credit 1 0")
+    for i in range(2):
+        f = sc.fut()
+        sc.add(f"send {f} 1 {wg.mtok([b'big', ('gen', 40000, 60 + i)])}", f"poll {f}", f"drop {f}", "wire 2")
+    sc.add({"eof": "eof 1", "rderr": "rderr 1 ConnectionReset", "protoerr": f"reveal 1 {wg.hx(bytes([4, 3, 2]) + b'HI')}"}[event])
+    if t == "PUB":
+        sc.add("drain")
+    else:
+        for _ in range(2):
+            f = sc.fut()
+            sc.add(f"recv {f} 1", f"poll {f}", f"drop {f}")
+    sc.add("drain", "halves 1")
+    f = sc.fut()
+    sc.add(f"send {f} 1 {wg.mtok([b'after'])}", f"poll {f}", f"drop {f}", "wire 2", "drain", "halves 1")
+    c = sc.case(f"{t}:backlog-then-{event}#{n}", ["pub-backlog-then-end"])
+    c.expect = ("backlogend", f)
+    return c
+
+
 def cases(tier, rng):
     out = gen.corpus(ID)
     n = 0
+    for t in ("PUB", "XPUB"):
+        for event in ("eof", "rderr", "protoerr"):
+            out.append(pub_backlog_then_end(t, event, n))
+            n += 1
     for kind in ("BrokenPipe", "ConnectionReset"):
         for nby in (0, 1, 2):
             out.append(sub_replay_fault(kind, nby, n))
@@ -297,6 +337,17 @@ def oracle(case, lines):
         if l.startswith(("PANIC", "ABORT")):
             return f"panic/abort in `{op}`"
     if not case.expect:
+        return None
+    if case.expect[0] == "backlogend":
+        res = list(zip(case.ops, lines[1:]))
+        hv = [l for op, l in res if op == "halves 1"]
+        if hv[-1] != "halves r=1 w=1":
+            return (f"the socket has observed the end of a subscriber's connection but still holds part of it: {hv[-1]} "
+                    "(r / w = read / write half released) — the backlog for a peer that is gone is kept")
+        r = [l for op, l in res if op == f"poll {case.expect[1]}"][-1]
+        w2 = [l for op, l in res if op == "wire 2"][-1]
+        if r != "ready ok" or w2 != "wire " + wg.show_wire([[b"after"]]):
+            return f"the other subscriber is affected by the victim's end: send={r[:40]} wire={w2[:40]}"
         return None
     if case.expect[0] == "replayfault":
         return replayfault_oracle(case, lines)
